@@ -4,6 +4,7 @@ import (
 	"encoding/json"
 	"fmt"
 	"math/big"
+	"math/rand/v2"
 	"os"
 	"path/filepath"
 	"sort"
@@ -20,10 +21,99 @@ import (
 func init() {
 	Registry["C15"] = C15
 	Registry["C16"] = C16
+	children["race-prims"] = racePrimsChild
+}
+
+// primsConcurrent: the per-call contracts hold for calls made at the same time from several goroutines on private
+// buffers (the primitives are functions of their arguments; expected values are computed by arithmetic).
+// what: "enc" (Put/Get) or "str" (UInt64ToString). Returns a description of the first call that broke its contract.
+func primsConcurrent(what string, seed uint64, workers, iters int) string {
+	var mu sync.Mutex
+	bad := ""
+	var wg sync.WaitGroup
+	for g := 0; g < workers; g++ {
+		wg.Add(1)
+		go func(g int) {
+			defer wg.Done()
+			r := rand.New(rand.NewPCG(seed, uint64(g)+99))
+			buf := make([]byte, 12)
+			for i := 0; i < iters; i++ {
+				x := r.Uint64()
+				if i%3 == 0 {
+					x = uint64(g+1) * 1007007007007007 // distinguishable per goroutine
+				}
+				msg := ""
+				switch what {
+				case "enc":
+					for k := range buf {
+						buf[k] = 0xA5
+					}
+					if i%2 == 0 {
+						machine.UInt64Put(buf, x)
+						for k := 0; k < 12 && msg == ""; k++ {
+							want := byte(0xA5)
+							if k < 8 {
+								want = byte(x >> (8 * uint(k)))
+							}
+							if buf[k] != want {
+								msg = fmt.Sprintf("UInt64Put(buf, %d) in goroutine %d left byte %d = %d, want %d (buffer %v)", x, g, k, buf[k], want, buf)
+							}
+						}
+						if msg == "" && machine.UInt64Get(buf) != x {
+							msg = fmt.Sprintf("UInt64Get after UInt64Put(%d) in goroutine %d returned %d", x, g, machine.UInt64Get(buf))
+						}
+					} else {
+						y := uint32(x)
+						machine.UInt32Put(buf, y)
+						for k := 0; k < 12 && msg == ""; k++ {
+							want := byte(0xA5)
+							if k < 4 {
+								want = byte(y >> (8 * uint(k)))
+							}
+							if buf[k] != want {
+								msg = fmt.Sprintf("UInt32Put(buf, %d) in goroutine %d left byte %d = %d, want %d (buffer %v)", y, g, k, buf[k], want, buf)
+							}
+						}
+						if msg == "" && machine.UInt32Get(buf) != y {
+							msg = fmt.Sprintf("UInt32Get after UInt32Put(%d) in goroutine %d returned %d", y, g, machine.UInt32Get(buf))
+						}
+					}
+				case "str":
+					got := machine.UInt64ToString(x)
+					if want := new(big.Int).SetUint64(x).String(); got != want {
+						msg = fmt.Sprintf("UInt64ToString(%d) in goroutine %d returned %q", x, g, got)
+					}
+				}
+				if msg != "" {
+					mu.Lock()
+					if bad == "" {
+						bad = msg
+					}
+					mu.Unlock()
+					return
+				}
+			}
+		}(g)
+	}
+	wg.Wait()
+	return bad
+}
+
+func racePrimsChild(args []string) int {
+	seed := uint64(1)
+	fmt.Sscan(args[0], &seed)
+	a := primsConcurrent("enc", seed, 4, 3000)
+	b := primsConcurrent("str", seed, 4, 3000)
+	if a != "" || b != "" {
+		fmt.Println("CONTRACT:", a, b)
+	}
+	fmt.Println("RACE-DRIVER-DONE encoders and UInt64ToString from 4 goroutines under -race")
+	return 0
 }
 
 type primCase struct {
 	Len     int    `json:"len"`
+	Slack   int    `json:"slack"`
 	Prior   string `json:"prior"`
 	W       []int  `json:"w"`
 	Refused int    `json:"refused"`
@@ -91,7 +181,7 @@ func runPrimCases(c *ev.Ctx, lens string, nRand int) ([]primCase, bool) {
 	}
 	gen := fmt.Sprintf("---- MODULE MCPrimsRun ----\nEXTENDS MCPrims\nGenLens == %s\nGenRand64 == %s\nGenRand32 == %s\n====\n", lens, tlaLimbSet(r64), tlaLimbSet(r32))
 	_ = os.WriteFile(filepath.Join(dir, "MCPrimsRun.tla"), []byte(gen), 0644)
-	cfg := "CONSTANTS\n Lens <- GenLens\n Priors = {\"zero\", \"ff\", \"pat\"}\n Words64 <- MCWords64\n Words32 <- MCWords32\n Rand64 <- GenRand64\n Rand32 <- GenRand32\nINIT Init\nNEXT Next\nINVARIANTS RoundTrip Framed RefusedUntouched DecCanonical Emit\n"
+	cfg := "CONSTANTS\n Slacks = {0, 9}\n Lens <- GenLens\n Priors = {\"zero\", \"ff\", \"pat\"}\n Words64 <- MCWords64\n Words32 <- MCWords32\n Rand64 <- GenRand64\n Rand32 <- GenRand32\nINIT Init\nNEXT Next\nINVARIANTS RoundTrip Framed RefusedUntouched WindowFramed DecCanonical Emit\n"
 	_ = os.WriteFile(filepath.Join(dir, "MCPrimsRun.cfg"), []byte(cfg), 0644)
 	r := tlc.Run{Dir: dir, Module: "MCPrimsRun", Workers: 1, Timeout: 10 * time.Minute}.Do()
 	if !c.CheckTLC("MCPrims", r) {
@@ -126,8 +216,11 @@ func C15(c *ev.Ctx) {
 	}
 	distinct := map[string]bool{}
 	for i, pc := range cases {
-		buf := fillPrior(pc.Prior, pc.Len)
-		before := append([]byte{}, buf...)
+		// the buffer is a window of a larger array: 3 bytes before it, pc.Slack bytes of spare capacity behind it
+		const pre = 3
+		mem := fillPrior(pc.Prior, pre+pc.Len+pc.Slack)
+		buf := mem[pre : pre+pc.Len : pre+pc.Len+pc.Slack]
+		before := append([]byte{}, mem...)
 		x := limbsToUint(pc.W)
 		var panicked bool
 		if len(pc.W) == 8 {
@@ -135,18 +228,18 @@ func C15(c *ev.Ctx) {
 		} else {
 			panicked = catchPanic(func() { machine.UInt32Put(buf, uint32(x)) })
 		}
-		got := bytesToInts(buf)
+		got := bytesToInts(mem)
 		key := fmt.Sprintf("put%d", len(pc.W)*8)
 		bad := ""
 		switch {
 		case pc.Refused == 1 && !panicked:
 			bad = "a too-short buffer was not refused"
 		case pc.Refused == 1 && !sameInts(got, bytesToInts(before)):
-			bad = "a refused Put wrote part of the buffer"
+			bad = "a refused Put wrote part of the buffer or of its neighbours"
 		case pc.Refused == 0 && panicked:
 			bad = "Put panicked on a long-enough buffer"
 		case pc.Refused == 0 && !sameInts(got, pc.After):
-			bad = "buffer after Put differs from the specification"
+			bad = "memory after Put (buffer and its neighbours in the backing array) differs from the specification"
 		}
 		if bad == "" && pc.Refused == 0 {
 			// Get inverts Put and reads only the frame: scribble outside the frame first
@@ -177,18 +270,23 @@ func C15(c *ev.Ctx) {
 				bad, key = "Get on a too-short buffer was not refused", fmt.Sprintf("get%d", len(pc.W)*8)
 			}
 		}
-		distinct[fmt.Sprintf("%d/%s/%v", pc.Len, pc.Prior, pc.W)] = true
+		distinct[fmt.Sprintf("%d/%d/%s/%v", pc.Len, pc.Slack, pc.Prior, pc.W)] = true
 		if i < 2 {
 			c.Sample(pc)
 		}
 		if bad != "" {
-			c.Violation(key, fmt.Sprintf("%s: value %d (limbs %v), buffer length %d prior %q: before %v after %v, specification %v", bad, x, pc.W, pc.Len, pc.Prior, bytesToInts(before), got, pc.After),
+			c.Violation(key, fmt.Sprintf("%s: value %d (limbs %v), buffer length %d (+%d spare capacity) prior %q: backing array before %v after %v, specification %v", bad, x, pc.W, pc.Len, pc.Slack, pc.Prior, bytesToInts(before), got, pc.After),
 				map[string]string{"case.json": jsonStr(pc)})
 			if c.NViolations() > 5 {
 				break
 			}
 		}
 	}
+	if msg := primsConcurrent("enc", uint64(c.Seed), 8, c.Pick(40000, 400000)); msg != "" {
+		c.Violation("put-get.concurrent-callers", "with several goroutines encoding into private buffers at the same time: "+msg, nil)
+	}
+	c.Set("concurrent_calls", 8*c.Pick(40000, 400000))
+	raceChild(c, "race-prims", "goose/machine")
 	c.AddTraces(len(cases))
 	c.Set("exhaustive", true)
 	c.Set("evaluations", len(cases))
@@ -210,6 +308,16 @@ type wtScenario struct {
 func runWT(s wtScenario) (evs []map[string]any, hung bool) {
 	mu := new(sync.Mutex)
 	cond := sync.NewCond(mu)
+	if strings.HasPrefix(s.Prelude, "farleak") {
+		// many earlier calls that timed out on OTHER condition variables (each leaves a parked helper behind)
+		for i := 0; i < 300; i++ {
+			m2 := new(sync.Mutex)
+			c2 := sync.NewCond(m2)
+			m2.Lock()
+			machine.WaitTimeout(c2, 0)
+			m2.Unlock()
+		}
+	}
 	t00 := time.Now()
 	ms := func() int { return int(time.Since(t00) / time.Millisecond) }
 	evs = append(evs, map[string]any{"ev": "reset", "scenario": s.Name})
@@ -332,6 +440,10 @@ func C16(c *ev.Ctx) {
 		seen[got] = x
 	}
 	c.Set("format_cases", nfmt)
+	if msg := primsConcurrent("str", uint64(c.Seed), 8, c.Pick(40000, 400000)); msg != "" {
+		c.Violation("uint64tostring.concurrent-callers", "with several goroutines formatting at the same time: "+msg+" (not the canonical rendering of its argument)", nil)
+	}
+	raceChild(c, "race-prims", "goose/machine")
 	// (b) MapClear / Assume / Assert
 	mcCases := 0
 	for n := 0; n < c.Pick(40, 400); n++ {
@@ -407,7 +519,10 @@ func C16(c *ev.Ctx) {
 		wtScenario{Name: "earlier-waiter-timeout", TimeoutMs: 20, SigAtMs: -1, Prelude: "waiter"},
 		wtScenario{Name: "leak-then-broadcast", TimeoutMs: 1500, SigAtMs: 30, Kind: "broadcast", Prelude: "leak"},
 		wtScenario{Name: "leak-then-signal", TimeoutMs: 1500, SigAtMs: 30, Kind: "signal", Prelude: "leak"},
-		wtScenario{Name: "leak-then-timeout", TimeoutMs: 20, SigAtMs: -1, Prelude: "leak"})
+		wtScenario{Name: "leak-then-timeout", TimeoutMs: 20, SigAtMs: -1, Prelude: "leak"},
+		wtScenario{Name: "300-leaks-elsewhere-then-signal", TimeoutMs: 1500, SigAtMs: 30, Kind: "signal", Prelude: "farleak"},
+		wtScenario{Name: "300-leaks-elsewhere-then-broadcast", TimeoutMs: 1500, SigAtMs: 5, Kind: "broadcast", Prelude: "farleak"},
+		wtScenario{Name: "300-leaks-elsewhere-then-timeout", TimeoutMs: 20, SigAtMs: -1, Prelude: "farleak"})
 	reps := c.Pick(1, 5)
 	validate := func(evs []map[string]any) (bool, int, bool) {
 		tv := validateTrace(dir, "WaitTimeoutTrace", evs, false, 3*time.Minute)
